@@ -94,6 +94,8 @@ class UpdateTaskState(Unit):
             "run_on_fail is set only on ready non-command entries staged beside a fail command whose condition was true"},
         "C18.uts.unrelated_staged_untouched": {"props": ["C18", "C04", "C09"], "text":
             "a staged entry of a task that is neither the reporting task nor one of its transition targets is left exactly as it was (in particular it is never marked run_on_fail)"},
+        "C09.uts.leaf_is_terminal": {"props": ["C09", "C06"], "text":
+            "a task that completes with no outbound transition taken (none exists, or none evaluated true) is marked terminal by that very report, whatever the workflow status becomes (so a pause before the last report does not lose the terminal context)"},
         "C02.uts.links": {"props": ["C02"], "text":
             "the workflow machine is consulted with an event carrying exactly the status of the reporting task's latest record"},
         "C05.sep.record_creation": {"props": ["C05", "C18", "C07"], "text":
@@ -424,6 +426,11 @@ class UpdateTaskState(Unit):
                     O("C01.uts.true_transition_staged", ok)
             O("C01.uts.true_transition_staged", True)
 
+            if completed_now and not retried and task_id == T and kind != "engine":
+                none_taken = not any(v_ == "true" for v_ in crit.values())
+                if none_taken and not any(v_ == "raises" for v_ in crit.values()):
+                    O("C09.uts.leaf_is_terminal", cur.get("term") is True)
+            O("C09.uts.leaf_is_terminal", True)
             # criteria / publish errors
             for i, outcome in crit.items():
                 t_id = tid_of(targets[i], i)
